@@ -241,10 +241,20 @@ impl Expression {
     }
 }
 
+/// Maximum number of nested `parse_primary` calls: one per `!` / `(` level plus one for
+/// the innermost operand, i.e. up to 127 levels of `!` / `(` are accepted.
+///
+/// Every nesting level costs several stack frames of the recursive descent. Without a
+/// bound, a few kilobytes of `((((...` or `!!!!...` overflow the stack, which aborts the
+/// process instead of returning an error.
+pub const MAX_NESTING_DEPTH: usize = 128;
+
 /// Expression parser using recursive descent parsing
 pub struct ExpressionParser {
     input: Vec<char>,
     position: usize,
+    /// Number of `parse_primary` calls currently active (nesting depth of `!` / `(`)
+    depth: usize,
 }
 
 impl ExpressionParser {
@@ -253,6 +263,7 @@ impl ExpressionParser {
         Self {
             input: input.chars().collect(),
             position: 0,
+            depth: 0,
         }
     }
 
@@ -332,7 +343,25 @@ impl ExpressionParser {
     }
 
     /// Parse primary expression (field, literal, variable, or parenthesized)
+    ///
+    /// Every recursive re-entry of the parser (`!`, `(`) goes through this function, so
+    /// bounding the number of active calls bounds the recursion depth.
     fn parse_primary(&mut self) -> Result<Expression> {
+        if self.depth >= MAX_NESTING_DEPTH {
+            return Err(RuleEngineError::ParseError {
+                message: format!(
+                    "Expression nested deeper than {} levels at position {}",
+                    MAX_NESTING_DEPTH, self.position
+                ),
+            });
+        }
+        self.depth += 1;
+        let result = self.parse_primary_unbounded();
+        self.depth -= 1;
+        result
+    }
+
+    fn parse_primary_unbounded(&mut self) -> Result<Expression> {
         self.skip_whitespace();
 
         // Handle negation
